@@ -38,10 +38,10 @@ Definition elem_quoted (cur : list uchar) : data_elem := DStr (concat cur).
 (* finish (data.rs:158-170) *)
 Definition dp_finish (quoted : bool) (cur : list uchar) (elems : list data_elem) : list data_elem :=
   let push := if quoted then elem_quoted cur else elem_unquoted cur in
-  match concat cur with
-  | _ :: _ => elems ++ [push]
-  | [] => match elems with [] => [push] | _ => elems end
-  end.
+  let pending := if quoted then (match concat cur with [] => false | _ => true end)
+                 else negb (all_ws cur) in
+  if pending then elems ++ [push]
+  else match elems with [] => [push] | _ => elems end.
 
 (* parse_char loop (data.rs:122-156, 183-201).  [n] = bytes_chomped. *)
 Fixpoint dp_run (cs : list uchar) (quoted : bool) (cur : list uchar)
